@@ -515,9 +515,10 @@ class BP:
                 return v
             return ecls.try_value(v)
         if fi.kind == "message":
-            if not v and (contained or fi.label in ("oneof", "optional", "repeated")):
+            if not v and (contained or fi.label in ("oneof", "optional", "repeated") or not self.b.msgs[fi.type_name].fields):
                 # an empty message in a position where ASSIGNING it already means "set" (oneof member, optional, list
-                # element, map value): alternate between a freshly constructed Sub() and a received empty one
+                # element, map value, or any field of a field-less type): alternate between a freshly constructed Sub()
+                # and a received empty one
                 self._fresh_toggle = not getattr(self, "_fresh_toggle", False)
                 if self._fresh_toggle:
                     return self.b.bp_class(fi.type_name)()
